@@ -375,10 +375,14 @@ func (h *binomial[K, V]) Insert(key K, val V) {
 
 // Merge merges the current heap with another heap.
 // The new heap must have the same underlying type as the current one.
+// All items are moved to the current heap and the other heap is left empty.
 func (h *binomial[K, V]) Merge(H MergeableHeap[K, V]) {
-	if hh, ok := H.(*binomial[K, V]); ok {
+	if hh, ok := H.(*binomial[K, V]); ok && hh != h {
 		h.head = h.union(h.head, hh.head)
 		h.n += hh.n
+
+		// The nodes of the other heap belong to the current heap now.
+		hh.head, hh.n = nil, 0
 	}
 }
 
